@@ -163,13 +163,15 @@ def getcUnchecked : M (Option Nat) := do
   | [c] => pure (some c)
   | _ => pure none
 
-/-- `read(ptr, n)` into an existing buffer (`buf.length ≥ n` is the caller's obligation, checked here):
-    bytes not delivered keep their previous content. Returns the new buffer and the count delivered. -/
+/-- `io_error_if( read(ptr, n) != n )` into an existing buffer (`buf.length ≥ n` is the caller's obligation, checked here).
+    Since /repo 84ae407 every row / packet read of the three readers throws on a short count (before: the bytes not
+    delivered kept their previous content and were used as pixels). Returns the new buffer and the count delivered (= n). -/
 def readInto (site : String) (buf : List Nat) (n : Nat) : M (List Nat × Nat) := do
   if n > buf.length then ubAt ("heap-buffer-overflow@" ++ site) "read(ptr, n) with n larger than the buffer"
   else
     let got ← readSome n
-    pure (got ++ buf.drop got.length, got.length)
+    if got.length < n then ioErr
+    else pure (got ++ buf.drop got.length, got.length)
 
 /-- allocation of `n` bytes (n as the size_t the C++ computes, already wrapped to 64 bits) -/
 def alloc (n : Int) : M Unit :=
@@ -301,7 +303,10 @@ def readHeader0 : M Info := do
 /-- reader_backend::read_header: a zero or negative width, or a zero / still negative height, is rejected (/repo ad1e4c7) -/
 def readHeader : M Info := do
   let i ← readHeader0
-  if i.width < 1 ∨ i.height < 1 then ioErr else pure i
+  if i.width < 1 ∨ i.height < 1 then ioErr
+  -- /repo c96cb0d: the readers compute the row pitch in int: width * bits per pixel (+ 31) has to fit
+  else if i.width * i.bpp > 2147483647 - 31 then ioErr
+  else pure i
 
 /-- palette entries (r,g,b,a) -/
 abbrev Palette := List (Nat × Nat × Nat × Nat)
@@ -677,13 +682,11 @@ structure ScanBufs where
 def scanRowsBuf (i : Info) (pitch : Int) (rowFn : ScanBufs → M ScanBufs) : Nat → Int → ScanBufs → List (List Nat) → M (List (List Nat))
   | 0, _, _, acc => pure acc
   | n + 1, pos, bufs, acc => do
-    -- read(dst, pos): long offset = _info._offset + (height - 1 - pos) * _pitch   (int * int, then uint32 + int)
+    -- read(dst, pos): long offset = _info._offset + static_cast<long>(height - 1 - pos) * _pitch   (/repo c96cb0d: in long)
     let prod := (if i.height > 0 then i.height - 1 - pos else pos) * pitch
-    if !inS32 prod then ubAt ("signed-integer-overflow@" ++ fScan ++ ":read") "(height - 1 - pos) * _pitch overflows int"
-    else
-      seekSet (wrapU 32 (i.offset + wrapU 32 prod))
-      let bufs ← rowFn bufs
-      scanRowsBuf i pitch rowFn n (pos + 1) bufs (bufs.dst :: acc)
+    seekSet (wrapS 64 (i.offset + prod))
+    let bufs ← rowFn bufs
+    scanRowsBuf i pitch rowFn n (pos + 1) bufs (bufs.dst :: acc)
 
 def scan (i : Info) : M Img := do
   let raw : Int := if i.bpp < 8 then i.width * i.bpp else i.width * ((i.bpp + 7) / 8)
@@ -1131,8 +1134,8 @@ def rleLoop (bpp : Nat) (imageSize : Nat) : Nat → Nat → List (List Nat) → 
         if pixel + written > imageSize then ioErr
         else
           let got ← readSome written
-          if got.length < written then setTaint ("short packet read used as pixel data in " ++ fRle) else pure ()
-          rleLoop bpp imageSize fuel (pixel + written) ((got ++ List.replicate (written - got.length) 0) :: acc)
+          if got.length < written then ioErr          -- /repo 84ae407 (before: zeros used as pixels)
+          else rleLoop bpp imageSize fuel (pixel + written) (got :: acc)
     else pure acc
 
 def rleCopyRows (i : Info) (st : Settings) (dimx : Int) (bpp : Nat) (data : List Nat) (firstRow : Int) : Nat → Int → Dest → M Dest
